@@ -96,6 +96,18 @@ PresenceCases ==
   { Case("presence", p, self, "ed25519", "ed25519", Kid("sha256"), src) :
       p \in PresenceParams, self \in Bool, src \in IF Quick THEN {"keypair"} ELSE {"keypair", "spki", "csr"} }
 
+(* every single source of extensions alone, everything else empty (never sampled away) *)
+SoleSourceParams ==
+  { [Base EXCEPT !.serial = ser, !.dn = dn, !.sans = <<>>, !.isCa = ca] : ser \in {Auto, Given(<<0, 200, 1>>)}, dn \in {DnEmpty, DnOne}, ca \in {NoCa, ExplicitNoCa, CaU, CaC(0), CaC(7)} }
+  \cup { [Base EXCEPT !.dn = dn, !.sans = <<>>, !.ku = <<0, 5>>] : dn \in {DnEmpty, DnOne} }
+  \cup { [Base EXCEPT !.dn = dn, !.sans = <<>>, !.eku = <<"1.3.6.1.5.5.7.3.1">>] : dn \in {DnEmpty, DnOne} }
+  \cup { [Base EXCEPT !.dn = dn, !.sans = SanSome] : dn \in {DnEmpty, DnOne} }
+  \cup { [Base EXCEPT !.dn = dn, !.sans = <<>>, !.nc = nc] : dn \in {DnEmpty, DnOne}, nc \in {NcEmpty, NcPerm, NcExcl, NcBoth} }
+  \cup { [Base EXCEPT !.dn = dn, !.sans = <<>>, !.crldp = <<<<"$uri1">>>>] : dn \in {DnEmpty, DnOne} }
+  \cup { [Base EXCEPT !.dn = dn, !.sans = <<>>, !.custom = <<CuNonCrit>>] : dn \in {DnEmpty, DnOne} }
+  \cup { [Base EXCEPT !.dn = dn, !.sans = <<>>, !.aki = TRUE] : dn \in {DnEmpty, DnOne} }
+SoleSourceCases == { Case("presence", p, self, "ed25519", "ed25519", Kid("sha256"), "keypair") : p \in SoleSourceParams, self \in Bool }
+
 (* ---- value sweeps, one dimension at a time against two backgrounds (alone / with others) ---- *)
 Bg1 == Base
 Bg2 == [Base EXCEPT !.sans = SanSome, !.isCa = CaU, !.eku = <<"2.5.29.37.0">>, !.aki = TRUE]
@@ -231,7 +243,7 @@ SameNameCases == { Case("same-name", [Base EXCEPT !.dn = IssuerDn, !.isCa = ca, 
 Kid200 == [i \in 1..200 |-> (i * 7) % 256]
 VeryLongKidCases == { Case("longkid", [Base EXCEPT !.isCa = CaU, !.aki = TRUE, !.kid = KidPre(SubSeq(Kid200, 1, n))], self, "ed25519", "ed25519", KidPre(SubSeq(Kid200, 1, m)), "keypair") :
                         n \in {125, 126, 127, 128, 200}, m \in {125, 126, 127, 128, 129, 200}, self \in Bool }
-Cases == SameNameCases \cup VeryLongKidCases \cup CsrPathCases \cup BadStringCases \cup PathLenKuCases \cup OutsideIssuerCases \cup LongKidCases \cup AutoSerialCases \cup PresenceCases \cup KuCases \cup PathLenCases \cup PrefixCases \cup SanCases \cup NcCases \cup DnCases
+Cases == SoleSourceCases \cup SameNameCases \cup VeryLongKidCases \cup CsrPathCases \cup BadStringCases \cup PathLenKuCases \cup OutsideIssuerCases \cup LongKidCases \cup AutoSerialCases \cup PresenceCases \cup KuCases \cup PathLenCases \cup PrefixCases \cup SanCases \cup NcCases \cup DnCases
          \cup KidCases \cup SerialCases \cup EkuCases \cup CustomCases \cup CustomAkiCases \cup IssuerKindCases \cup AlgCases
 
 (* ---- abstract keys for the model (the harness substitutes real keys and real digests) ---- *)
